@@ -5,7 +5,9 @@
    leg of ./check C17 establishes against /repo on every run).
    Quantifiers are unbounded: any number of readouts, any rational times, any number of models. *)
 From Coq Require Import QArith List Bool.
-From PyxelV Require Import Model.Flux Proofs.Flux.
+From Coq Require Import String.
+From PyxelV Require Import Model.Flux Proofs.Flux Model.FluxExpr Proofs.FluxExpr.
+From PyxelGen Require Import Gen_C17.
 Import ListNotations.
 Open Scope Q_scope.
 
@@ -105,4 +107,79 @@ Example C17_hyps_needed :
     = Some [0] /\
   valid_schedule (-1) [0; 1] = false /\ valid_schedule 1 [1; 2] = false /\
   valid_schedule 0 [1; 1] = false /\ valid_schedule 0 [] = false /\ valid_schedule (-2) [-1; 1] = true.
+Proof. vm_compute. repeat split; reflexivity. Qed.
+
+(* ==== the tie to the source: Gen_C17.v is regenerated on every run by translator/c17.py ==================
+
+   ---- every function under pyxel/models that reads the exposure clock (time_step, time, absolute_time,
+   is_first_readout, pipeline_count, ...) or takes a time_scale is classified: time-integrating (then it
+   is exercised by the correspondence leg, and has rows in rate_table if it is expression-shaped) or
+   excluded with a reason; an integrating model is never also excluded *)
+Theorem C17_time_readers_classified :
+  readers_classified time_readers integrating_models excluded_models = true
+  /\ expr_models_covered rate_table expr_models = true
+  /\ forallb (fun m => mem_str m integrating_models) expr_models = true.
+Proof. vm_compute. repeat split; reflexivity. Qed.
+Print Assumptions C17_time_readers_classified.
+
+(* ---- for every option branch of every expression-shaped time-integrating model that draws no random
+   numbers, the quantity the source adds to the detector bucket is (its value at unit time step) * time_step,
+   for all values of all arguments and detector attributes: no branch forgets, squares, or replaces the step *)
+Theorem C17_rate_rows_linear :
+  forall r, In r rate_table -> has_random (rr_expr r) = false ->
+  forall (env : string -> Q) (step : Q), eval env step (rr_expr r) == rate_of env r * step.
+Proof. apply rows_linear. vm_compute. reflexivity. Qed.
+Print Assumptions C17_rate_rows_linear.
+
+(* ---- hence the per-model form of the property: one call with step s1 + s2 adds what two calls with s1 and s2 add *)
+Theorem C17_rate_rows_split_additive :
+  forall r, In r rate_table -> has_random (rr_expr r) = false ->
+  forall (env : string -> Q) (s1 s2 : Q),
+  eval env (s1 + s2) (rr_expr r) == eval env s1 (rr_expr r) + eval env s2 (rr_expr r).
+Proof. apply rows_split_additive. vm_compute. reflexivity. Qed.
+Print Assumptions C17_rate_rows_split_additive.
+
+(* ---- and each such row IS a rate op of the exposure model above (PhotonRate / ChargeRate with the row's
+   value at unit step as rate): the theorems about pipelines of mop apply to the source's expressions *)
+Theorem C17_rate_rows_are_model_ops :
+  forall r, In r rate_table -> has_random (rr_expr r) = false ->
+  forall (env : string -> Q) (step : Q) (s : st),
+  match rr_sink r with
+  | SPhoton => let s' := apply_op step s (PhotonRate (rate_of env r)) in
+               photon s' == photon s + eval env step (rr_expr r) /\ charge s' = charge s /\ pixel s' = pixel s
+  | SCharge => let s' := apply_op step s (ChargeRate (rate_of env r)) in
+               charge s' == charge s + eval env step (rr_expr r) /\ photon s' = photon s /\ pixel s' = pixel s
+  end.
+Proof. apply rows_are_rate_ops. vm_compute. reflexivity. Qed.
+Print Assumptions C17_rate_rows_are_model_ops.
+
+(* ---- the refusals of Readout.__init__ found in the source accept exactly the schedules of valid_schedule
+   (used by every theorem above): non-empty, first time non-zero, start < first time, strictly increasing *)
+Theorem C17_readout_guards_are_valid_schedule :
+  forall (start : Q) (ts : list Q),
+  accepted readout_empty_refused readout_guards start ts = valid_schedule start ts.
+Proof. apply accepted_is_valid_schedule. vm_compute. reflexivity. Qed.
+Print Assumptions C17_readout_guards_are_valid_schedule.
+
+(* ---- non-vacuity: the table has deterministic rows; a concrete expression of the shape found in load_image
+   (ADU -> photon conversion) is linear with the expected rate, and the ways of getting it wrong are rejected:
+   the step forgotten in one branch, the clock used instead of the step, the step squared, a floor on the step *)
+Definition ex_env (n : string) : Q :=
+  if String.eqb n "image" then 12 else if String.eqb n "adc" then 16 else if String.eqb n "bits" then 8
+  else if String.eqb n "gain" then 1 # 4 else if String.eqb n "time_scale" then 2 else 3.
+Definition ex_expr : texpr :=
+  TMul (TMul (TDiv (TMul (TVar "image") (TDiv (TPow (TConst 2) (TVar "adc")) (TPow (TConst 2) (TVar "bits")))) (TVar "gain"))
+             (TDiv TStep (TVar "time_scale"))) (TVar "multiplier").
+
+Example C17_rows_nonvacuous :
+  (2 <=? List.length (det_rows rate_table))%nat = true /\
+  lin ex_expr = true /\ Qred (eval ex_env 1 ex_expr) = 18432 /\ Qred (eval ex_env (5 # 2) ex_expr) = 46080 /\
+  lin (TMul (TVar "image") (TDiv (TVar "adc") (TVar "gain"))) = false /\
+  lin (TMul (TVar "rate") (TBad BClock "detector.time")) = false /\
+  lin (TMul (TMul (TVar "rate") TStep) TStep) = false /\
+  lin (TMul (TVar "rate") (TBad BNonlin "max(step, 0.25)")) = false /\
+  lin (TAdd (TMul (TVar "rate") TStep) (TVar "offset")) = false /\
+  (* dropping a guard is noticed: without the monotonicity check a decreasing schedule would be accepted *)
+  guards_complete true [GFirstZero; GStartGeFirst] = false /\
+  accepted true [GFirstZero; GStartGeFirst] 0 [2; 1] = true /\ valid_schedule 0 [2; 1] = false.
 Proof. vm_compute. repeat split; reflexivity. Qed.
